@@ -269,6 +269,10 @@ pub struct ScriptedCase {
     /// and a fine one, or a parameter listed twice to be moved more often
     #[serde(default)]
     pub aliases: Vec<(usize, f64)>,
+    /// added to every score the script hands out (0 by default): 1, 1e6, -3e-5: a ladder of
+    /// gaps of one ulp of that value; -inf / +inf: every score infinite, every proposal a tie
+    #[serde(default)]
+    pub score_offset: f64,
 }
 
 pub fn run_scripted(c: &ScriptedCase, keep_log: bool) -> RunReport {
@@ -282,6 +286,7 @@ pub fn run_scripted(c: &ScriptedCase, keep_log: bool) -> RunReport {
     let dynsink: Arc<Mutex<dyn ScriptSink>> = sink.clone();
     let mut state = Scripted::new(&c.init, &c.bounds, c.script.clone(), dynsink);
     state.aliases = c.aliases.clone();
+    state.offset = c.score_offset;
     let builder = if c.via_api { Ok(c.cfg.builder_api()) } else { c.cfg.builder() };
     let res = match builder {
         Err(e) => Err(format!("configuration rejected by the argument parser: {}", e)),
@@ -457,6 +462,8 @@ pub fn rand_bounds<R: Rng>(rng: &mut R, k: usize) -> (Vec<f64>, Vec<(f64, f64)>)
         };
         let hi = lo + w;
         let x = match rng.gen_range(0, 4) {
+            // (a zero resting on a zero bound may carry either sign)
+            0 if lo == 0. && rng.gen_bool(0.5) => -0.0,
             0 => lo,
             1 => hi,
             _ => lo + w * rng.gen::<f64>(),
@@ -509,6 +516,7 @@ pub fn rand_scripted_case<R: Rng>(rng: &mut R, kt_start: f64, max_steps: u64) ->
         cfg.max_step_size = 1.;
     }
     ScriptedCase {
+        score_offset: if rng.gen_range(0, 5) == 0 { [1., 1., -1., 1e6, -3e-5, 0.1, f64::NEG_INFINITY, f64::INFINITY][rng.gen_range(0, 8)] } else { 0. },
         aliases: if rng.gen_range(0, 6) == 0 { (0..rng.gen_range(1, 3)).map(|_| (rng.gen_range(0, k), 1.)).collect() } else { vec![] },
         init,
         bounds,
@@ -680,6 +688,7 @@ pub fn run_probe(c: &ScriptedCase, with_monitor: bool) -> ProbeReport {
     let dynsink: Arc<Mutex<dyn ScriptSink>> = sink.clone();
     let mut state = Scripted::new(&c.init, &c.bounds, c.script.clone(), dynsink);
     state.aliases = c.aliases.clone();
+    state.offset = c.score_offset;
     let builder = if c.via_api { Ok(c.cfg.builder_api()) } else { c.cfg.builder() };
     let res = match builder {
         Err(e) => Err(format!("configuration rejected by the argument parser: {}", e)),
